@@ -104,7 +104,7 @@ def run(rep, rng, tier, replay=None):
                 rep.violation("property", "coordinates beyond get_dimension() (a NaN and 0.5 appended) change the result", case=c2, failing_input=True)
             if "panic" not in o3["f64"]:
                 rep.violation("property", "a point one coordinate short does not panic: some coordinate below get_dimension() is never read", case=c3, failing_input=True)
-    rep.cov["rule"] = ("accepted connected graphs E<=%d, D=1..6; implementation run at T = Inst (taint sets on values, control set fed by PartialOrd/PartialEq): lambda <- {2E-2}, Gaussian "
+    rep.cov["rule"] = ("accepted connected graphs E<=%d plus 12 (60) disconnected ones (two_tadpoles / disconnected families), D=1..6; implementation run at T = Inst (taint sets on values, control set fed by PartialOrd/PartialEq): lambda <- {2E-2}, Gaussian "
                        "component n <- its own pair, L matrix and u <- xi coordinates only (by value), comparisons involve only the first 2E-2 coordinates and every edge-draw coordinate, "
                        "the union of all dependencies is exactly [0, dimension); then two poison coordinates appended (no output bit may change) and one coordinate removed (must panic). "
                        "Read counts of the model (theorem-backed) compared with get_dimension(). non-trivial = E>=3" % (6 if tier == "quick" else 8))
